@@ -412,6 +412,8 @@ def C04():
                          functions=["constructor + Message::write"], timeout=1500, mem_gb=12))
     jobs.append(MirJob("c04_mir_ntlm_authenticate_layout", "NTLM AUTHENTICATE token: every (Len, MaxLen, BufferOffset) addresses its field for all field lengths < 65536 and all flags; Version field consistent with the offset base (shared with C15)", mirjobs.authenticate_layout))
     jobs.append(MirJob("c04_mir_info_packet_counts", "Client Info: cbDomain/cbUserName/cbPassword equal the byte size of the UTF-16 buffers actually sent minus the 2-byte terminator, for every string (SMT on the lengths)", mirjobs.info_packet_counts))
+    jobs.append(MirJob("c04_mir_gcc_conference", "GCC conference create request: T.124 template step by step, connectPDU length equals the bytes written after it for every user-data size 128..32753 (SMT)",
+                       mirjobs.gcc_conference))
     jobs.append(MirJob("c04_mir_emitter_lengths", "share_control_header / share_data_header / ts_confirm_active_pdu / capability_set: for every size of the variable part up to 65535 - K (SMT, z3 + cvc5): the length or count field equals that size + K, it is computed from the object actually sent, the size announced to a reader of the same layout is exactly that size and names that field, and the u16 arithmetic cannot overflow",
                        mirjobs.emitter_lengths))
     jobs.append(MirJob("c04_mir_extended_info_counts", "Extended Client Info (sent to RDP 5+ servers): field order; cbClientAddress / cbClientDir equal the byte size (terminator included) of the buffers sent after them; the size the count announces to the record container is the count itself for every value (SMT); clientTimeZone is 172 bytes", mirjobs.extended_info_counts))
@@ -529,6 +531,8 @@ def C18():
                        mirjobs.component_options))
     jobs.append(MirJob("c18_mir_asn1_pairing", "nla/asn1.rs: every ASN1 implementation writes with its yasna primitive and reads with the inverse one (u32, bool, i64, octets, sequence, sequence-of, explicit and implicit tags), the value is not converted in between, both sides use the same tag field, children are visited in the same order, to_der/from_der/from_ber use the DER/BER entry points",
                        mirjobs.asn1_pairing))
+    jobs.append(MirJob("c18_mir_gcc_conference", "GCC conference create request / response: the PER primitives and their constant arguments follow the T.124 template step by step (object identifier 0.0.20.124.0.1, H.221 keys Duca / McDn, node id base 1001), every primitive's result is tested, and the connectPDU length equals the bytes written after it for every user-data size 128..32753 (SMT, z3 + cvc5)",
+                       mirjobs.gcc_conference))
     jobs.append(MirJob("c18_mir_version_table", "gcc::Version::from over every u32 (SMT): each wire value of the enum decodes to the variant that is written as that value, and no other value decodes to such a variant",
                        mirjobs.version_table))
     return Prop("C18", [("core/per.rs", "per.rs"), ("model/data.rs", "data.rs")], jobs, lowerings=["L2"],
